@@ -341,6 +341,20 @@ def run(ctx):
                          % sorted({h[0] for h in outside}))
     proof_ok = res["ok"]
     ctx.coverage["mutation_drills"] = MUTATION_DRILLS
+    if ctx.tier == "thorough" and proof_ok:
+        # independent re-check of the compiled property file (and everything it depends on) by coqchk
+        cmd = "timeout 1200 coqchk -silent -o -Q . RimeV RimeV.Properties_C19"
+        rcc, outc = vlib.sh(cmd, cwd=vlib.COQ, timeout=1300)
+        if rcc != 0:   # a concurrent rebuild of a shared .vo can disturb it: once more, under the build lock
+            with vlib.Lock(os.path.join(vlib.COQ, ".make.lock")):
+                rcc, outc = vlib.sh(cmd, cwd=vlib.COQ, timeout=1300)
+        clean = rcc == 0 and "* Axioms: <none>" in outc
+        ctx.coverage["coqchk"] = {"cmd": cmd, "rc": rcc, "axioms_none": "* Axioms: <none>" in outc, "summary": outc[-700:]}
+        if not clean:
+            proof_ok = False
+            ctx.coverage["discharged"] = 0
+            res["failed"].append(("coqchk Properties_C19", 0))
+            res["log"] += "\n[coqchk]\n" + outc[-2000:]
 
     def proof_violation():
         ctx.violation("proof:Properties_C19", "a proof obligation of Properties_C19.v no longer checks "
